@@ -802,19 +802,21 @@ func ctxWiring(c *Ctx, rule string) {
 	// every construction site is visited below through the Validate call that uses its result; here: count them,
 	// reject literal construction (no default clock / store wiring at all), and keep the positive control alive
 	n := scanCalls(c.P, c.P.LibFns, isCtor, func(s callSite) {})
-	c.count(rule+"/who-may-construct", n)
-	c.floor(rule+"/who-may-construct", 1)
+	// a context written as a literal is the constructor's own body (&ValidationContext{CertificateStore: s, IdAttribute:
+	// DefaultIdAttr, Clock: c}); whether a literal is wired like that is decided at each use below
 	for _, f := range c.P.LibFns {
 		for _, b := range f.Blocks {
 			for _, in := range b.Instrs {
 				if a, ok := in.(*ssa.Alloc); ok {
 					if strings.HasSuffix(typeStr(a.Type()), "dsig.ValidationContext") || strings.HasSuffix(typeStr(a.Type()), "goxmldsig.ValidationContext") {
-						c.bad(rule+"/who-may-construct", shortFn(f), "literal dsig.ValidationContext", c.P.InstrPos(a), "validation context constructed by literal instead of NewDefaultValidationContext(sp.IDPCertificateStore)")
+						n++
 					}
 				}
 			}
 		}
 	}
+	c.count(rule+"/who-may-construct", n)
+	c.floor(rule+"/who-may-construct", 1)
 	fired := 0
 	scanCalls(c.P, controlFns(c, "ownctx"), isCtor, func(s callSite) { fired++ })
 	c.Controls[rule+" ownctx"] = fired > 0
@@ -843,7 +845,31 @@ func ctxWiring(c *Ctx, rule string) {
 				recv := e.Args[0]
 				want := "dsig.NewDefaultValidationContext(SP.IDPCertificateStore)"
 				site := shortFn(e.Fn)
-				if ap(recv) == want {
+				literalOK := false
+				if a, isLit := recv.(*AllocV); isLit && strings.HasSuffix(typeStr(a.Type()), "ValidationContext") {
+					// the literal form: the fields the constructor sets, as they stand when the signature is checked
+					fieldAt := func(name string) Val {
+						var v Val
+						for _, s := range t.St.events {
+							if s.Seq >= e.Seq {
+								break
+							}
+							if s.Kind == EvStore && isFieldAddrOf(s.Addr, recv, name) {
+								v = s.Val
+							}
+						}
+						return v
+					}
+					store, idAttr := fieldAt("CertificateStore"), fieldAt("IdAttribute")
+					idOK := false
+					if idAttr != nil {
+						if sv, isC := constString(idAttr); isC && sv == "ID" {
+							idOK = true
+						}
+					}
+					literalOK = store != nil && ap(stripIface(store)) == "SP.IDPCertificateStore" && idOK
+				}
+				if ap(recv) == want || literalOK {
 					c.ok(rule, site, "context over sp.IDPCertificateStore", pos, want)
 				} else {
 					o := c.bad(rule, site, "context over sp.IDPCertificateStore", pos, "in "+fname+" a signature is checked with "+ap(recv)+", want a context built in this call by "+want+" (a cached / filtered / foreign store changes which certificates vouch)")
@@ -862,7 +888,7 @@ func ctxWiring(c *Ctx, rule string) {
 				if clk == nil {
 					// `if sp.Clock != nil { ctx.Clock = sp.Clock }`: on the other path the fresh context's nil Clock IS sp.Clock
 					a := t.atoms()
-					clockOK = a["SP.Clock == nil"] && ap(recv) == want
+					clockOK = a["SP.Clock == nil"] && (ap(recv) == want || literalOK)
 				}
 				c.check(clockOK, rule, site, "ctx.Clock = sp.Clock", pos, "clock injected before the check", "ctx.Clock is "+apOrNone(clk)+" when the signature is checked (unset => wall clock decides certificate validity)")
 			}
